@@ -1,4 +1,4 @@
-(* C15: every HMF coefficient update (row of astep) and component update (column of gstep) is the exact weighted
+(* C15: every HMF coefficient update (row of astep_ref) and component update (column of gstep_ref) is the exact weighted
    least-squares optimum given the other factor; badness never increases in an a-step. *)
 From Coq Require Import QArith Qabs Lqa List Bool Lia ZArith.
 From PV Require Import Lib.WLS C13.LinAlg C13.LinAlgProofs C15.Model C15.Chi2Proofs.
@@ -39,20 +39,20 @@ Proof.
   destruct Hr as [j [E _]]. subst. apply col_length.
 Qed.
 
-(* ------------------------------------------------------------------ astep *)
+(* ------------------------------------------------------------------ astep_ref *)
 Lemma hmf_row_data_wf g wi si : Forall (fun v => 0 <= v) wi -> wf (length g) (hmf_row_data g wi si).
 Proof. intros H. unfold hmf_row_data. apply wf_combine; [apply transpose_rows | exact H]. Qed.
 
-(* astep_optimal_rowwise: for fixed g, row i of astep minimises sum_j w_ij (s_ij - (x g)_j)^2 over all x *)
+(* astep_optimal_rowwise: for fixed g, row i of astep_ref minimises sum_j w_ij (s_ij - (x g)_j)^2 over all x *)
 Theorem astep_optimal_rowwise s w g a' i si wi ai :
-  astep s w g = Some a' ->
+  astep_ref s w g = Some a' ->
   nth_error s i = Some si -> nth_error w i = Some wi -> nth_error a' i = Some ai ->
   Forall (fun v => 0 <= v) wi ->
   length ai = length g /\
   (forall d, gdot (hmf_row_data g wi si) ai d == 0) /\
   forall z, length z = length g -> chi2 (hmf_row_data g wi si) ai <= chi2 (hmf_row_data g wi si) z.
 Proof.
-  unfold astep. intros H Hs Hw Ha Hpos.
+  unfold astep_ref. intros H Hs Hw Ha Hpos.
   pose proof (opt_all_nth _ _ _ _ H Ha) as Hn.
   rewrite (nth_error_map2 _ s w i si wi Hs Hw) in Hn. inversion Hn as [E]; clear Hn.
   pose proof (hmf_row_data_wf g wi si Hpos) as HD.
@@ -60,11 +60,11 @@ Proof.
   intros d. apply (wls_solve_gradient (length g)); [apply wf_wfl; exact HD | exact E].
 Qed.
 
-(* ------------------------------------------------------------------ gstep *)
-Lemma gstep_cols s w a g eps g' : gstep s w a g eps = Some g' ->
-  exists cols, opt_all (map (gstep_col s w a g eps (ncols a) (ncols s)) (seq 0 (ncols s))) = Some cols /\ g' = transpose cols.
+(* ------------------------------------------------------------------ gstep_ref *)
+Lemma gstep_cols s w a g eps g' : gstep_ref s w a g eps = Some g' ->
+  exists cols, opt_all (map (gstep_col_ref s w a g eps (ncols a) (ncols s)) (seq 0 (ncols s))) = Some cols /\ g' = transpose cols.
 Proof.
-  unfold gstep. destruct (opt_all _) as [cols|]; [|discriminate]. intros H; inversion H; subst. exists cols. split; reflexivity.
+  unfold gstep_ref. destruct (opt_all _) as [cols|]; [|discriminate]. intros H; inversion H; subst. exists cols. split; reflexivity.
 Qed.
 
 Lemma gdot_app D1 D2 x d : gdot (D1 ++ D2) x d == gdot D1 x d + gdot D2 x d.
@@ -206,13 +206,13 @@ Definition gstep_objective (s w a g : mat) (eps : option Q) (j : nat) : list obs
 
 (* gstep_optimal_colwise *)
 Theorem gstep_col_optimal s w a g eps j x :
-  gstep_col s w a g eps (ncols a) (ncols s) j = Some x ->
+  gstep_col_ref s w a g eps (ncols a) (ncols s) j = Some x ->
   rows_len (ncols a) a -> Forall (fun v => 0 <= v) (col j w) ->
   length x = ncols a /\
   (forall d, length d = ncols a -> gdot (gstep_objective s w a g eps j) x d == 0) /\
   forall z, length z = ncols a -> chi2 (gstep_objective s w a g eps j) x <= chi2 (gstep_objective s w a g eps j) z.
 Proof.
-  intros H Ha Hw. unfold gstep_col in H. unfold gstep_objective.
+  intros H Ha Hw. unfold gstep_col_ref in H. unfold gstep_objective.
   set (K := ncols a) in *. set (M := ncols s) in *.
   set (D := hmf_col_data a (col j w) (col j s)) in *.
   pose proof (hmf_col_data_wf a (col j w) (col j s) Ha Hw) as HD. fold K D in HD.
@@ -247,9 +247,9 @@ Proof.
     intros d _. apply (wls_solve_gradient K D x HL H).
 Qed.
 
-(* every column gstep assembles is such an optimum *)
+(* every column gstep_ref assembles is such an optimum *)
 Theorem gstep_optimal_colwise s w a g eps g' :
-  gstep s w a g eps = Some g' -> rows_len (ncols a) a -> Forall (Forall (fun v => 0 <= v)) w ->
+  gstep_ref s w a g eps = Some g' -> rows_len (ncols a) a -> Forall (Forall (fun v => 0 <= v)) w ->
   exists cols, g' = transpose cols /\ length cols = ncols s /\
     forall j x, nth_error cols j = Some x ->
       length x = ncols a /\
